@@ -12,7 +12,9 @@ from vlib.common import Run, rng_for, hexs
 PROP = "C09"
 RULE = ("case = (field in {status, header name, header value}, position in {start, middle, end}, injected character "
         "from 0x00-0x20, 0x7f, 0x80, 0xff, ':', U+0100, U+2028) enumerated completely x worker loop, plus random header "
-        "lists with hop-by-hop names, non-str types and exc_info retries; distinct = (field, position, character, "
+        "lists with hop-by-hop names, non-str types and exc_info retries; name injections again under --strip-header-spaces, "
+        "value / status injections again under all request-side tolerance switches; two-call sequences (interim 1xx status, "
+        "then the final status) with the injection in either call; distinct = (field, position, character, "
         "loop) / sha1 of the random case; every case is non-trivial (each carries an injection or a header list)")
 
 HOP = {"connection", "keep-alive", "proxy-authenticate", "proxy-authorization", "te", "trailers",
@@ -20,6 +22,15 @@ HOP = {"connection", "keep-alive", "proxy-authenticate", "proxy-authorization", 
 TOKEN_CHARS = set("!#$%&'*+-.^_`|~0123456789abcdefghijklmnopqrstuvwxyzABCDEFGHIJKLMNOPQRSTUVWXYZ")
 INJECT = [chr(c) for c in list(range(0x00, 0x21)) + [0x7f, 0x80, 0xff]] + [":", "Ā", " "]
 MUST_REFUSE = {"\r", "\n", "\0"}
+# server configurations: the request-side tolerance switches (deprecated / "use with care") say nothing about what an application
+# may put into a response - the oracle is the same under each of them
+CFGS = {
+    None: {},
+    "strip": {"strip_header_spaces": True},
+    "lenient": {"strip_header_spaces": True, "permit_obsolete_folding": True, "permit_unconventional_http_method": True,
+                "permit_unconventional_http_version": True, "casefold_http_method": True, "header_map": "dangerous"},
+}
+INTERIM_STATUS = ["103 Early Hints", "102 Processing", "100 Continue", "199 Custom Interim"]
 
 
 def is_token(s):
@@ -53,6 +64,19 @@ class App:
                 hdrs[i] = (n.encode("latin-1", "replace"), v) if t == "name-bytes" else \
                     (n, v.encode("latin-1", "replace")) if t == "value-bytes" else (n, 7) if t == "value-int" else (n, None)
         try:
+            if c.get("interim"):
+                # the two-step protocol of interim responses: start_response(1xx) first, then start_response(final status)
+                it = c["interim"]
+                start_response(it["status"], [(n, v) for n, v in it["headers"]])
+                if it.get("swallow"):
+                    # ... by an application that goes on when the server does not take the second call
+                    try:
+                        start_response(c["status"], hdrs)
+                    except Exception as e:      # noqa: BLE001
+                        self.exc = type(e).__name__
+                    return [b"body-Zq"]
+                start_response(c["status"], hdrs)
+                return [b"body-Zq"]
             if c.get("catch"):
                 # error-middleware shape: the first start_response is refused, the stack catches that and answers with its own
                 # error response through the exc_info form - nothing of the refused call may be left behind
@@ -112,6 +136,8 @@ def judge(case, out, app):
     data = out["received"]
     version = case["version"]
     verdict, app_lines = expected_lines(case, version)
+    if case.get("interim"):
+        return judge_interim(case, out)
     if case.get("catch") and (verdict in ("refuse", "either") or b"500 Caught By Middleware\r\n" in out["received"][:60]):
         return judge_caught(case, out, verdict)
     markers = [m.encode("latin-1", "replace") for m in case["markers"]]
@@ -201,6 +227,107 @@ def judge_caught(case, out, verdict):
     return v, "accepted"
 
 
+DATE_RE = rb"^Date: [A-Z][a-z]{2}, [0-9]{2} [A-Z][a-z]{2} [0-9]{4} [0-9]{2}:[0-9]{2}:[0-9]{2} GMT$"
+ERRPAGE_RE = rb"^HTTP/1\.1 [45][0-9][0-9] [A-Za-z ]+$"
+
+
+def call_model(call):
+    """One start_response(status, headers) call: (must it be refused, status line text or None, the lines its headers may give)."""
+    refuse = classify_value(call["status"]) == "refuse"
+    lines = []
+    for n, v in call["headers"]:
+        if not is_token(n) or classify_value(v) == "refuse":
+            refuse = True
+            continue
+        if n.lower() in HOP and not (n.lower() == "upgrade" and v.strip(" \t").lower() == "websocket"):
+            continue
+        lines.append((n + ": " + v.strip(" \t")).encode("latin-1"))
+    return refuse, call["status"], lines
+
+
+def judge_interim(case, out):
+    """start_response(interim 1xx status, headers) followed by start_response(final status, headers): a server may refuse the second
+    call (then its own error page is all the client sees) or send an interim head followed by the final one. Whatever it does, every
+    head on the wire is a status line one of the two calls gave plus the server's own lines plus lines of that call's accepted
+    headers, in order; nothing of a call that has to be refused is on the wire."""
+    import re
+    v = []
+    data = out["received"]
+    if out["handler_exc"]:
+        v.append(("exception-escaped-handler", out["handler_exc"]))
+    if out["hung"]:
+        v.append(("handler-hung", ""))
+        return v, "hung"
+    if not data:
+        return v, "nothing-sent"
+    calls = [call_model(case["interim"]), call_model(case)]
+    must_refuse = any(c[0] for c in calls)
+    what = "start_response(%r, %r) then start_response(%r, %r)" % (case["interim"]["status"], case["interim"]["headers"],
+                                                                     case["status"], case["headers"])
+    pos = 0
+    outcome = "accepted"
+    nheads = 0
+    while data[pos:pos + 5] == b"HTTP/":
+        end = data.find(b"\r\n\r\n", pos)
+        if end < 0:
+            v.append(("head-not-terminated", hexs(data[pos:pos + 200])))
+            return v, "broken"
+        lines = data[pos:end].split(b"\r\n")
+        pos = end + 4
+        nheads += 1
+        if re.match(ERRPAGE_RE, lines[0]) and b"Server: gunicorn" not in lines:
+            ok = (len(lines) == 4 and lines[1] == b"Connection: close" and lines[2] == b"Content-Type: text/html"
+                  and re.match(rb"^Content-Length: [0-9]+$", lines[3]))
+            if ok:
+                body = data[pos:]
+                ok = len(body) == int(lines[3].split(b": ")[1]) and b"\r" not in body and b"\0" not in body
+            if not ok:
+                v.append(("error-page-malformed", hexs(data[:300])))
+            outcome = "refused-500" if nheads == 1 else "refused-500-after-interim-head"
+            break
+        bad = None
+        owner = [c for c in calls if lines[0] == ("HTTP/%s %s" % (case["version"], c[1])).encode("latin-1", "replace")]
+        if not owner:
+            bad = "status line %r is not one the application gave" % hexs(lines[0])
+        elif all(c[0] for c in owner):
+            bad = "status line %r belongs to a call that had to be refused" % hexs(lines[0])
+        else:
+            for c in owner:
+                if c[0]:
+                    continue
+                k = 0
+                bad = None
+                seen = set()
+                for ln in lines[1:]:
+                    srv = ("Server" if ln == b"Server: gunicorn" else "Date" if re.match(DATE_RE, ln) else
+                           "Connection" if ln in (b"Connection: close", b"Connection: keep-alive", b"Connection: upgrade") else
+                           "TE" if ln == b"Transfer-Encoding: chunked" else None)
+                    if srv and srv not in seen:
+                        seen.add(srv)
+                        continue
+                    while k < len(c[2]) and c[2][k] != ln:
+                        k += 1
+                    if k >= len(c[2]):
+                        bad = "line %r is neither the server's nor (in order) one of %r" % (hexs(ln), [hexs(x) for x in c[2]])
+                        break
+                    k += 1
+                if bad is None:
+                    break
+        if bad is None and any(b"\r" in ln or b"\n" in ln or b"\0" in ln for ln in lines):
+            bad = "bare CR / LF / NUL inside a head line"
+        if bad is not None:
+            v.append(("refused-text-on-wire/interim-sequence" if must_refuse else "head-lines-differ/interim-sequence",
+                      "%s: head #%d on the wire %r: %s" % (what, nheads, [hexs(x) for x in lines], bad)))
+            break
+        m = re.match(rb"^HTTP/[0-9]\.[0-9] ([0-9]{3})( |$)", lines[0])
+        if not m or not (100 <= int(m.group(1)) < 200 and int(m.group(1)) != 101):
+            break           # the final head: what follows is the body
+    if nheads == 0:
+        v.append(("head-not-terminated", hexs(data[:200])))
+        return v, "broken"
+    return v, outcome
+
+
 BENIGN_STATUS = "200 OKZqS"
 BENIGN_NAME = "X-NameZqN"
 BENIGN_VALUE = "valueZqV"
@@ -264,6 +391,32 @@ def enum_cases():
                 val = base + tail if ch == "" else base + ch + tail
                 cases.append({"status": BENIGN_STATUS, "headers": [["X-Before", "bZq"], [hname, val], ["X-After", "aZq"]],
                               "markers": ["pwnedZq"], "sig": ["hop", hname, base, ch, tail]})
+    # every name injection again with --strip-header-spaces (blanks after a field name are tolerated in *requests* there), every
+    # value / status injection that must be refused again with all request-side tolerance switches on
+    for c in list(cases):
+        if c["sig"][0] == "name":
+            cases.append(dict(c, cfg="strip", sig=c["sig"] + ["cfg:strip"]))
+        elif c["sig"][0] in ("value", "status", "hop") and expected_lines(c, "1.1")[0] == "refuse":
+            cases.append(dict(c, cfg="lenient", sig=c["sig"] + ["cfg:lenient"]))
+    # names that are a known field name plus trailing blanks
+    for name in ("Content-Length ", "Content-Length\t", "X-Frame-Options ", "X-Frame-Options \t ", "Set-Cookie\t", "Transfer-Encoding "):
+        for cfg in (None, "strip", "lenient"):
+            value = "7" if name.startswith("Content-Length") else "vZqV"
+            cases.append({"status": BENIGN_STATUS, "headers": [["X-Before", "bZq"], [name, value], ["X-After", "aZq"]], "cfg": cfg,
+                          "markers": ["ZqV"], "sig": ["name-trailing-blank", name, str(cfg)]})
+    # two calls: an interim status first, the final status second; the injection sits in one of the two
+    tails = ["", "\r\nSet-Cookie: pwnedZq=1", "\nSet-Cookie: pwnedZq=1", "\rSet-Cookie: pwnedZq=1", "\0pwnedZq", "\r\n", "\n",
+             "\r\n\r\nHTTP/1.1 200 OK\r\nContent-Length: 7\r\n\r\npwnedZq"]
+    for ist in INTERIM_STATUS:
+        for where in ("interim-value", "interim-name", "interim-status", "final-value"):
+            for ti, tail in enumerate(tails):
+                for swallow in (False, True):
+                    it = {"status": ist + (tail if where == "interim-status" else ""), "swallow": swallow,
+                          "headers": [["Link", "</a.css>; rel=preloadZqL" + (tail if where == "interim-value" else "")],
+                                      ["X-Hint" + (tail if where == "interim-name" else ""), "hZq"]]}
+                    cases.append({"status": BENIGN_STATUS, "interim": it, "markers": ["pwnedZq"],
+                                  "headers": [["X-Before", "bZq"], [BENIGN_NAME, BENIGN_VALUE + (tail if where == "final-value" else "")]],
+                                  "sig": ["interim", ist, where, ti, swallow]})
     return cases
 
 
@@ -280,7 +433,8 @@ def random_case(rng):
             val = rng.choice(["close", "keep-alive", "upgrade", "websocket", "chunked", "timeout=5", "x" + m])
             hdrs.append([n, val])
         elif k < 0.5:
-            n = rng.choice(["X-Ok", "Set-Cookie", "Content-Type", "X_Under", "x-lower", "X.dot", "X~t"])
+            n = rng.choice(["X-Ok", "Set-Cookie", "Content-Type", "X_Under", "x-lower", "X.dot", "X~t", "X-Ok ", "X-Ok\t", "X-Ok \t",
+                            "Content-Type ", " X-Ok"])
             hdrs.append([n, rng.choice([" lead" + m, "trail%s " % m, "\ttab%s\t" % m, "", "caf\xe9" + m, "a, b" + m])])
         elif k < 0.7:
             n = "X-H%d" % i
@@ -306,14 +460,34 @@ def random_case(rng):
         c["retry"] = False
     if c["status"].startswith("204"):
         c["retry"] = False
+    c["cfg"] = rng.choice([None, None, "strip", "lenient"])
+    if rng.random() < 0.15:
+        ih = []
+        for i in range(rng.randint(0, 3)):
+            m = "ZqI%d" % i
+            k = rng.random()
+            if k < 0.4:
+                ih.append([rng.choice(["Link", "X-Hint", "Set-Cookie", "Connection", "Content-Length", "Upgrade"]),
+                           rng.choice(["</s.css>; rel=preload" + m, "7", "websocket", "close", "v" + m])])
+            elif k < 0.75:
+                ih.append(["Link", "".join(rng.choice(["a", "<", ">", " ", "\t", "\r", "\n", "\r\n", "\0", "\x0b", "\x85", ":", "Ā"])
+                                           for _ in range(rng.randint(0, 6))) + m])
+            else:
+                ih.append(["".join(rng.choice(["X", "-", "a", " ", "\t", ":", "\r", "\n", "_"]) for _ in range(rng.randint(0, 5))) + m, "v" + m])
+        c["interim"] = {"status": rng.choice(INTERIM_STATUS + ["103 Early Hints", "103 Early\r\nX-Inj: 1Zqs", "103", "100 \0Zqs", "1xx Zqs"]),
+                        "headers": ih, "swallow": rng.random() < 0.3}
+        c["retry"] = c["catch"] = False
+        c["types"] = None
+        c.pop("late", None)
     return c
 
 
 def run_case(run, e2, harnesses, case):
     kind = case["kind"]
-    h = harnesses.get(kind)
+    cfg = case.get("cfg")
+    h = harnesses.get((kind, cfg))
     if h is None:
-        h = harnesses[kind] = e2.Harness(kind, {"keepalive": 2})
+        h = harnesses[(kind, cfg)] = e2.Harness(kind, dict(CFGS[cfg], keepalive=2))
     app = App(case)
     req = ("GET /c09 HTTP/%s\r\nHost: h\r\n\r\n" % case["version"]).encode()
     out = h.connection(req, app)
@@ -323,8 +497,21 @@ def run_case(run, e2, harnesses, case):
     run.count("expected/" + exp)
     if exp == "refuse" and outcome in ("refused-500", "nothing-sent"):
         run.count("must_refuse_refused")
-    if exp == "ok" and outcome == "accepted" and not verdicts:
+    if exp == "ok" and outcome == "accepted" and not verdicts and not case.get("interim"):
         run.count("accepted_head_exact")
+    if cfg is not None:
+        run.count("tolerance_switch_cases/" + cfg)
+        blank = [n for n, _ in case["headers"] if n != n.rstrip(" \t") and is_token(n.rstrip(" \t"))]
+        if blank and outcome in ("refused-500", "nothing-sent", "caught-500"):
+            run.count("name_with_trailing_blank_refused_under_strip_header_spaces")
+    if case.get("interim"):
+        run.count("interim_sequences")
+        if call_model(case["interim"])[0] or call_model(case)[0]:
+            run.count("interim_sequences_must_refuse")
+            if outcome in ("refused-500", "nothing-sent"):
+                run.count("interim_must_refuse_refused")
+        if outcome == "accepted":
+            run.count("interim_sequence_heads_on_wire")
     return verdicts, out
 
 
@@ -372,7 +559,9 @@ def shard(sh):
 
 def main(tier, seed):
     run = Run(PROP, tier, seed, "exploration", RULE)
-    run.require("must_refuse_refused", "accepted_head_exact", "expected/either", "outcome/refused-500")
+    run.require("must_refuse_refused", "accepted_head_exact", "expected/either", "outcome/refused-500",
+                "tolerance_switch_cases/strip", "tolerance_switch_cases/lenient", "name_with_trailing_blank_refused_under_strip_header_spaces",
+                "interim_sequences", "interim_sequences_must_refuse", "interim_must_refuse_refused")
     q = tier == "quick"
     shards = [{"kind": "enum", "sub": i, "of": 16, "seed": seed, "tier": tier} for i in range(16)]
     shards += [{"kind": "rand", "n": 1500 if q else 20000, "sub": i, "seed": seed, "tier": tier}
@@ -382,6 +571,8 @@ def main(tier, seed):
         "control characters other than CR/LF/NUL in a value may be refused or forwarded on their own line (EITHER)",
         "headers of a superseded first start_response call (exc_info retry before any byte) are tolerated in the head (PEP 3333 conformance, not response splitting)",
         "Upgrade: websocket is forwarded and Connection: upgrade reflected (documented websocket support)",
+        "strip_header_spaces and the other request-side tolerance switches are documented for what the server accepts from clients; the rules for application-supplied text are the same under them",
+        "interim status followed by a final status: neither taking nor refusing the second call is demanded; every head that reaches the client must be a status line the application gave plus the server's lines plus that call's accepted headers in order, and nothing of a call that has to be refused",
     ]
     run.extra_cov["exhaustive_subspace"] = "field x position x injected character (3 x 3 x %d) x 3 loops x 2 versions" % len(INJECT)
     common.run_sharded(run, shards, timeout=900 if q else 7200)
